@@ -28,4 +28,4 @@ Qed.
 
 (* the retry model's host function is the selection spec's host function *)
 Lemma get_host_host_of hp : get_host hp = host_of hp.
-Proof. induction hp as [|c r IH]; cbn; [reflexivity|]. destruct (c =? 58); [reflexivity|]. rewrite IH. reflexivity. Qed.
+Proof. reflexivity. (* the two host functions are the same fixpoint *) Qed.
